@@ -16,6 +16,7 @@
   Model after the proposed fix C10-F1 (NaivePBESolver divided by zero on a task without examples).
 -/
 import PS.Proofs.Solver
+import PS.Proofs.SolverRestartStats
 import PS.Props.C11
 set_option linter.unusedSectionVars false
 namespace PS.C10
@@ -391,5 +392,181 @@ example : (solve (test .naive (dslEv S true) [([0], 7)]) Solver.init [] [C11.Exa
 example : (solve (test .cutoff (dslEv S true) [([2], 7)]) Solver.init [] [C11.Example.divp, C11.Example.big] [] [true]).yielded
     = [C11.Example.big] := by decide
 end Example
+
+--RESTART-BEGIN
+/-! ## restart solver -/
+/-
+  RestartPBESolver (synth/pbe/solvers/restart_pbe_solver.py) over MetaPBESolver
+  (pbe_solver.py:132-190); model: PS/Model/SolverRestart.lean, lemmas: PS/Proofs/SolverRestart*.lean.
+  Quantification: every enumerator interface (`prm.stream`: finite or infinite streams), every restart
+  criterion (any Bool function of the solver object), every restart function (enumerator × `_data` →
+  enumerator), both sub-solvers, every faithful evaluator, every task, answer stream, clock, prior
+  state `s` of the solver object, and every amount `fuel` of loop iterations (the real loop need not
+  terminate).  `segProgs prm k spec exs fuel s en` is the SEGMENTED enumeration: segment i is the
+  prefix of the i-th enumerator's stream consumed before the (i+1)-th restart (`C10_restart_segments`).
+  Switches `prm.fixNext` / `prm.fixStats`: the proposed repairs C10-F2 / C10-F3 (false = the code as it is).
+-/
+section restart
+variable {En : Type}
+
+/-- **C10_restart_refines.** The restart solver behaves as the plain solver (section A) run on the
+    segmented enumeration: same yielded programs, corresponding end (`toBase`: the end of the
+    segmented enumeration — StopIteration, normal end after the repair, or fuel used up — is the plain
+    solver's "exhausted"), same counter `_programs`, same evaluator state. -/
+theorem C10_restart_refines {ev : Ev St P I V E} {spec : P → I → Outcome V E} {Inv : St → Prop}
+    (hF : Faithful ev spec Inv) (prm : Params En P) (k : Kind) (exs : List (I × V)) (fuel : Nat)
+    (s : RSolver P) (st : St) (hst : Inv st) (en : En) (dl as : List Bool) (bs : Solver P) :
+    (solveR prm (test k ev exs) fuel s st en dl as).yielded =
+      (solve (test k ev exs) bs st (segProgs prm k spec exs fuel s en) dl as).yielded ∧
+    (solveR prm (test k ev exs) fuel s st en dl as).status.toBase =
+      (solve (test k ev exs) bs st (segProgs prm k spec exs fuel s en) dl as).status ∧
+    (solveR prm (test k ev exs) fuel s st en dl as).solver.self.programs =
+      (solve (test k ev exs) bs st (segProgs prm k spec exs fuel s en) dl as).solver.programs ∧
+    (solveR prm (test k ev exs) fuel s st en dl as).st =
+      (solve (test k ev exs) bs st (segProgs prm k spec exs fuel s en) dl as).st :=
+  sim (refinesS_of_faithful hF k exs) fuel (initTaskR s) st en 0 dl as (initTask bs) hst rfl
+
+/-- **C10_restart_yields.** The programs yielded are exactly, in order, the programs of the segmented
+    enumeration that satisfy every example — among those consumed before an outside event (deadline,
+    escaping exception) — up to and including the first one answered True. -/
+theorem C10_restart_yields {ev : Ev St P I V E} {spec : P → I → Outcome V E} {Inv : St → Prop}
+    (hF : Faithful ev spec Inv) (prm : Params En P) (k : Kind) (exs : List (I × V)) (fuel : Nat)
+    (s : RSolver P) (st : St) (hst : Inv st) (en : En) (dl as : List Bool) :
+    (solveR prm (test k ev exs) fuel s st en dl as).yielded =
+      upToAccepted (((segProgs prm k spec exs fuel s en).take
+        (horizon (verdict k spec exs) (segProgs prm k spec exs fuel s en) dl)).filter (sat spec exs)) as := by
+  rw [(C10_restart_refines hF prm k exs fuel s st hst en dl as Solver.init).1]
+  exact C10_yields hF k exs Solver.init st hst _ dl as
+
+/-- **C10_restart_never_wrong.** Every yielded program was produced by one of the enumerators (it is
+    an entry of the segmented enumeration, at its position of its enumerator's stream) and its
+    evaluation on every example input equals the example output. -/
+theorem C10_restart_never_wrong {ev : Ev St P I V E} {spec : P → I → Outcome V E} {Inv : St → Prop}
+    (hF : Faithful ev spec Inv) (prm : Params En P) (k : Kind) (exs : List (I × V)) (fuel : Nat)
+    (s : RSolver P) (st : St) (hst : Inv st) (en : En) (dl as : List Bool) (p : P)
+    (hp : p ∈ (solveR prm (test k ev exs) fuel s st en dl as).yielded) :
+    (∃ e ∈ segOf prm k spec exs fuel s en, e.p = p ∧ prm.stream e.en e.pos = some p) ∧
+    ∀ ex ∈ exs, spec p ex.1 = .value ex.2 := by
+  rw [(C10_restart_refines hF prm k exs fuel s st hst en dl as Solver.init).1] at hp
+  obtain ⟨h1, h2⟩ := C10_never_wrong hF k exs Solver.init st hst _ dl as p hp
+  refine ⟨?_, h2⟩
+  obtain ⟨e, he, hep⟩ := List.mem_map.mp h1
+  obtain ⟨pre, post, hsplit⟩ := List.append_of_mem he
+  obtain ⟨g1, _⟩ := segRun_entry fuel (initTaskR s) en 0 pre e post hsplit
+  exact ⟨e, he, hep, by rw [← hep]; exact g1⟩
+
+/-- **C10_restart_never_skips.** A program of the segmented enumeration that satisfies every example
+    and that the solver went past (its position is below the final value of `_programs`) was yielded. -/
+theorem C10_restart_never_skips {ev : Ev St P I V E} {spec : P → I → Outcome V E} {Inv : St → Prop}
+    (hF : Faithful ev spec Inv) (prm : Params En P) (k : Kind) (exs : List (I × V)) (fuel : Nat)
+    (s : RSolver P) (st : St) (hst : Inv st) (en : En) (dl as : List Bool)
+    (pre : List P) (q : P) (post : List P) (hseg : segProgs prm k spec exs fuel s en = pre ++ q :: post)
+    (hq : ∀ ex ∈ exs, spec q ex.1 = .value ex.2)
+    (hpast : pre.length < (solveR prm (test k ev exs) fuel s st en dl as).solver.self.programs) :
+    q ∈ (solveR prm (test k ev exs) fuel s st en dl as).yielded := by
+  obtain ⟨h1, _, h3, _⟩ := C10_restart_refines hF prm k exs fuel s st hst en dl as Solver.init
+  rw [h1]
+  rw [h3] at hpast
+  rw [hseg] at hpast ⊢
+  exact C10_never_skips hF k exs Solver.init st hst pre q post dl as hq hpast
+
+/-- **C10_restart_exhausted.** If the generator ends because the current enumerator's stream ended
+    (normally after the repair C10-F2, with StopIteration → RuntimeError as the code is), every
+    satisfying program of the segmented enumeration was yielded, and the statistics are untouched
+    (`_close_task_solving_` is not called on this path, as for the plain solver). -/
+theorem C10_restart_exhausted {ev : Ev St P I V E} {spec : P → I → Outcome V E} {Inv : St → Prop}
+    (hF : Faithful ev spec Inv) (prm : Params En P) (k : Kind) (exs : List (I × V)) (fuel : Nat)
+    (s : RSolver P) (st : St) (hst : Inv st) (en : En) (dl as : List Bool)
+    (hend : (solveR prm (test k ev exs) fuel s st en dl as).status = .finished .exhausted ∨
+            (solveR prm (test k ev exs) fuel s st en dl as).status = .finished .stopIteration) :
+    (solveR prm (test k ev exs) fuel s st en dl as).yielded =
+      (segProgs prm k spec exs fuel s en).filter (sat spec exs) ∧
+    (solveR prm (test k ev exs) fuel s st en dl as).solver.self.statsPrograms = s.self.statsPrograms ∧
+    (solveR prm (test k ev exs) fuel s st en dl as).solver.statsRestarts = s.statsRestarts ∧
+    (solveR prm (test k ev exs) fuel s st en dl as).solver.self.programs =
+      (segProgs prm k spec exs fuel s en).length := by
+  obtain ⟨h1, h2, h3, _⟩ := C10_restart_refines hF prm k exs fuel s st hst en dl as Solver.init
+  have hb : (solve (test k ev exs) Solver.init st (segProgs prm k spec exs fuel s en) dl as).status
+      = .finished .exhausted := by
+    rw [← h2]; rcases hend with h | h <;> rw [h] <;> rfl
+  obtain ⟨g1, _, g3⟩ := C10_exhausted hF k exs Solver.init st hst _ dl as hb
+  have hfr : Frame (initTaskR s) (solveR prm (test k ev exs) fuel s st en dl as).solver := by
+    apply unclosed_frame <;> (rcases hend with h | h <;> rw [solveR] at h <;> rw [h] <;> simp)
+  exact ⟨by rw [h1, g1], hfr.selfStatsPrograms, hfr.statsRestarts, by rw [h3, g3]⟩
+
+/-- **C10_restart_ends_normally_partial.** Full statement (violated by the code as it is, finding
+    C10-F2): *a run never ends with an exception that no evaluation raised*.  Proved under the
+    decidable hypothesis "the repair `next(gen, None)` is in place"; without it the end of an
+    enumerator's stream is a `StopIteration` inside the generator, i.e. a RuntimeError
+    (`finding_C10_restart_stop_iteration` below). -/
+theorem C10_restart_ends_normally_partial (prm : Params En P) (T : St → P → St × Except E (Bool × Score))
+    (hfix : prm.fixNext = true) (fuel : Nat) (s : RSolver P) (st : St) (en : En) (dl as : List Bool) :
+    (solveR prm T fuel s st en dl as).status ≠ .finished .stopIteration := by
+  intro h
+  have := (end_of_stream (prm := prm) (T := T) fuel (initTaskR s) st en 0 dl as).2 h
+  rw [hfix] at this; cases this
+
+/-- … and as the code is, a run never ends *normally* at the end of a stream -/
+theorem C10_restart_never_exhausted_unrepaired (prm : Params En P) (T : St → P → St × Except E (Bool × Score))
+    (hfix : prm.fixNext = false) (fuel : Nat) (s : RSolver P) (st : St) (en : En) (dl as : List Bool) :
+    (solveR prm T fuel s st en dl as).status ≠ .finished .exhausted := by
+  intro h
+  have := (end_of_stream (prm := prm) (T := T) fuel (initTaskR s) st en 0 dl as).1 h
+  rw [hfix] at this; cases this
+
+/-- **C10_restart_rank.** When a solution is accepted, it is the program of an entry `e` of the
+    segmented enumeration, at rank `pre.length + 1`; every satisfying program before it was yielded
+    (and refused); the task is closed: `get_stats("programs")` is `statsBase + rank` — where
+    `statsBase` is the meta solver's previous value after the repair C10-F3 and the *sub-solver's*
+    value as the code is —, `get_stats("restarts")` grew by the number of restarts (segments started
+    after the first entry), 'program_probability' is that of the accepted program. -/
+theorem C10_restart_rank {ev : Ev St P I V E} {spec : P → I → Outcome V E} {Inv : St → Prop}
+    (hF : Faithful ev spec Inv) (prm : Params En P) (k : Kind) (exs : List (I × V)) (fuel : Nat)
+    (s : RSolver P) (st : St) (hst : Inv st) (en : En) (dl as : List Bool)
+    (hend : (solveR prm (test k ev exs) fuel s st en dl as).status = .finished .accepted) :
+    ∃ pre e post, segOf prm k spec exs fuel s en = pre ++ e :: post ∧
+      (∀ ex ∈ exs, spec e.p ex.1 = .value ex.2) ∧
+      (solveR prm (test k ev exs) fuel s st en dl as).yielded = (pre.map (·.p)).filter (sat spec exs) ++ [e.p] ∧
+      (solveR prm (test k ev exs) fuel s st en dl as).solver.self.statsPrograms =
+        statsBase prm.fixStats (initTaskR s) + (pre.length + 1) ∧
+      (solveR prm (test k ev exs) fuel s st en dl as).solver.statsRestarts =
+        s.statsRestarts + starts (pre ++ [e]).tail ∧
+      (solveR prm (test k ev exs) fuel s st en dl as).solver.self.statsLast = some e.p := by
+  have hT := refinesS_of_faithful hF k exs
+  obtain ⟨pre, e, post, sc, hsplit, hte, hsol⟩ :=
+    accepted_specR (prm := prm) hT fuel (initTaskR s) st en 0 dl as hst hend
+  obtain ⟨_, g2, _, g4, g5⟩ := segRun_entry fuel (initTaskR s) en 0 pre e post hsplit
+  -- the plain solver on the segmented enumeration accepts the same program
+  obtain ⟨h1, h2, h3, _⟩ := C10_restart_refines hF prm k exs fuel s st hst en dl as Solver.init
+  have hb : (solve (test k ev exs) Solver.init st (segProgs prm k spec exs fuel s en) dl as).status
+      = .finished .accepted := by rw [← h2, hend]; rfl
+  obtain ⟨pre', p', post', he', hp', hy', hs', _⟩ := C10_rank hF k exs Solver.init st hst _ dl as hb
+  have hprog : (solveR prm (test k ev exs) fuel s st en dl as).solver.self.programs = pre.length + 1 := by
+    rw [solveR, hsol, closeR_programs]; simp [testedS, countedS, g2, initTaskR, initTask]
+  have hprog' : (solve (test k ev exs) Solver.init st (segProgs prm k spec exs fuel s en) dl as).solver.programs
+      = pre'.length + 1 := by
+    have := (base_stats (T := test k ev exs) (segProgs prm k spec exs fuel s en) (initTask Solver.init) st dl as).1
+      (Or.inl hb)
+    simp only [solve] at hs' this ⊢
+    rw [hs'] at this
+    simp [initTask, Solver.init] at this ⊢
+    omega
+  have hlen : pre'.length = pre.length := by rw [h3, hprog'] at hprog; omega
+  have hes : segProgs prm k spec exs fuel s en = pre.map (·.p) ++ e.p :: post.map (·.p) := by
+    simp [segProgs, segOf, hsplit]
+  rw [hes] at he'
+  obtain ⟨q1, q2⟩ := List.append_inj he' (by simp [hlen])
+  simp only [List.cons.injEq] at q2
+  refine ⟨pre, e, post, hsplit, ?_, ?_, ?_, ?_, ?_⟩
+  · rw [q2.1]; exact hp'
+  · rw [h1, hy', q1, q2.1]
+  · rw [solveR, hsol, closeR_statsPrograms, statsBase_frame (g5.trans (frame_testedS e.s sc))]
+    simp [testedS, countedS, g2, initTaskR, initTask]
+  · rw [solveR, hsol, closeR_statsRestarts]
+    simp [testedS, countedS, g4, g5.statsRestarts, initTaskR]
+  · rw [solveR, hsol]; exact (closeR_statsLast _ _ _).1
+
+end restart
+--RESTART-END
 
 end PS.C10
